@@ -19,7 +19,7 @@ CHECKS = {
  'C05': ('opspec', 'TLC invariants of PutOps.tla in every reachable state + kill (process exit, and KeyboardInterrupt before / on return) of the real trash-put at every operation, judged by TLC (FsTrace)',
          'InfoBeforePayload and NothingLost are invariants of every reachable state of PutOps.tla; the real trash-put is killed before each of its operations (all of them, incl. the per-file steps of the cross-volume copy + delete) in 18 scenarios (incl. long names and several arguments in one invocation), also by Ctrl-C delivered before and on the return of each operation, and TLC evaluates the invariants on each post-kill on-disk state.', '6 C05'),
  'C17': ('opspec', 'TLC on PutOps.tla with one-shot and persistent faults (safety + Termination) + errno injection at every operation of the real trash-put, judged by TLC (FsTrace)',
-         'Faults are actions of PutOps.tla; TLC checks FinalStateIsC01 and Termination with 1-2 one-shot faults and sticky faults. The real trash-put is run with each errno injected at each operation, one-shot and sticky (thorough: sampled pairs); termination within an operation budget and the final state (TLC: FinalStateIsC01, NothingLost, NoOverwrite) are checked. Two known findings.', '6 C17'),
+         'Faults are actions of PutOps.tla; TLC checks FinalStateIsC01 and Termination with 1-2 one-shot faults and sticky faults. The real trash-put is run with each errno injected at each operation, one-shot and sticky (thorough: 11 errnos); termination within an operation budget and the final state (TLC: FinalStateIsC01, NothingLost, NoOverwrite) are checked. Two known findings.', '6 C17'),
  'C06': ('cmdspec', 'TLC-generated restore transitions over occupied destinations, run on the real trash-restore',
          'TLC enumerates restore edges with the destination free or occupied by each kind, each kind of trashed entry, one- and two-index replies, with and without --overwrite; the real run must end in one of the specification post-states (refusal leaves occupant and entry untouched; overwrite replaces a non-directory); entries written by other implementations (any Path spelling, trailing slashes) with an occupied location are really restored and TLC (FunTrace) judges that nothing moved.', '6 C06'),
  'C07': ('cmdspec', 'TLC enumeration of the configuration lattice + real trash-put with operation trace',
